@@ -32,6 +32,8 @@ DECIDED_R6 = ('Round 6: offset-or-minus-one tested with >= 0; dispatch-table ent
 DECIDED = DECIDED + ' ' + DECIDED_R6
 DECIDED_R7 = ('Round 7: fixed-width windows reject only after a length test; bytes never compared with an element of bytes; every header-end exit has reset the eater; method values compared with ==.')
 DECIDED = DECIDED + ' ' + DECIDED_R7
+DECIDED_R8 = ('Round 8: the short-window rule knows startswith(<K >= 2 bytes>); premise C05.f; resets and write-back of the delimiter state may be one assignment per field.')
+DECIDED = DECIDED + ' ' + DECIDED_R8
 NOT_DECIDED = ('that these are the *only* sources of split dependence: equality of the markup over all divisions of all bodies is '
                'an equivalence of runtime values (e.g. absolute-offset arithmetic of the first section when the opening '
                'delimiter itself is cut is not decided).')
@@ -81,6 +83,83 @@ def eat_data_roles(P):
         if need not in roles:
             raise AnalysisError(f'_eat_data: cannot identify `{need}` by role')
     return roles
+
+
+def check_window_bound(P, R, rid):
+    """the full-window scan of _eat_data covers every window that fits: a start s is scanned iff s + tlen <= len(chunk) - a window that fits exactly is a window,
+    not a tail (a complete delimiter in the tail is only reported when the next chunk arrives, or never)"""
+    from .c19 import Lin, lin_eval
+    f = P.func(f'{MP}:BodyMarkuper._eat_data')
+    g, rd = f.cfg, f.rd
+    er = eat_data_roles(P)
+    tl = er['tlen']
+    chunk = f.params[1]
+    lens = {d.name for n in g.nodes for d in rd.gen.get(n, []) if d.value is not None and isinstance(d.value, ast.Call) and dotted(d.value.func) == 'len'
+            and d.value.args and isinstance(d.value.args[0], ast.Name) and d.value.args[0].id == chunk}
+    env = {tl: Lin.sym('T')}
+    for nm in lens:
+        env[nm] = Lin.sym('L')
+
+    def lin(e, at):
+        if isinstance(e, ast.Call) and dotted(e.func) == 'len' and e.args and isinstance(e.args[0], ast.Name) and e.args[0].id == chunk:
+            return Lin.sym('L')
+        if isinstance(e, ast.Name) and e.id not in env:
+            ds = rd.at(at, e.id)
+            vals = {id(d): d.value for d in ds if d.value is not None}
+            if len(ds) == 1 and vals:
+                d0 = ds[0]
+                # `end = start + tlen`: keep `start` symbolic
+                env2 = dict(env)
+                for x in ast.walk(d0.value):
+                    if isinstance(x, ast.Name) and x.id not in env2:
+                        env2[x.id] = Lin.sym('S')
+                return lin_eval(d0.value, env2)
+            return None
+        env2 = dict(env)
+        for x in ast.walk(e):
+            if isinstance(x, ast.Name) and x.id not in env2:
+                env2[x.id] = Lin.sym('S')
+        return lin_eval(e, env2)
+    seen = 0
+    for lp in [x for x in walk_shallow(f.node) if isinstance(x, ast.For) and isinstance(x.iter, ast.Call) and dotted(x.iter.func) == 'range' and len(x.iter.args) == 3]:
+        if src(lp.iter.args[2]) != tl:
+            continue
+        seen += 1
+        at = g.nodes_for(lp)[0]
+        st = lin(lp.iter.args[1], at)
+        want = Lin.sym('L') - Lin.sym('T') + Lin(1)
+        if st is None:
+            R.undecided(rid, f, lp, '_eat_data', f'the stop `{short(lp.iter.args[1])}` of the window loop is not linear in len(chunk) and the token length')
+            continue
+        ok = st == want
+        R.ob(rid, f, lp, ok, text=f'`{short(lp.iter)}`: every window that fits is scanned (stop = len(chunk) - tlen + 1)', detail='' if ok else
+             f'the window loop stops at `{short(lp.iter.args[1])}` = {st}, not at {want}: a last window that fits exactly is treated as a tail - a complete delimiter there '
+             f'becomes a zero-length pending continuation and is reported only with the next chunk, so the markup of a body depends on where the reads cut it',
+             why='every division of a well-formed body gives the same result as parsing it in one piece', key_extra='window-bound')
+    for n in g.nodes:
+        if n.kind != 'test' or n.ast is None:
+            continue
+        cp = compare_parts(n.ast)
+        if not cp or cp[1] not in (ast.Gt, ast.GtE, ast.Lt, ast.LtE):
+            continue
+        l_, r_ = lin(cp[0], n), lin(cp[2], n)
+        if l_ is None or r_ is None:
+            continue
+        d_ = l_ - r_
+        # (S + T) - L  compared with 0
+        if d_ == Lin.sym('S') + Lin.sym('T') - Lin.sym('L'):
+            seen += 1
+            ok = cp[1] is ast.Gt or cp[1] is ast.LtE
+        elif d_ == Lin.sym('L') - Lin.sym('S') - Lin.sym('T'):
+            seen += 1
+            ok = cp[1] is ast.Lt or cp[1] is ast.GtE
+        else:
+            continue
+        R.ob(rid, f, n.ast, ok, text=f'`{short(n.ast)}`: a window that fits exactly is scanned as a window', detail='' if ok else
+             f'`{short(n.ast)}` sends a window that ends exactly at the end of the chunk to the tail handling: a complete delimiter there is not reported with this chunk',
+             why='every division of a well-formed body gives the same result as parsing it in one piece', key_extra='window-bound')
+    if not seen:
+        R.undecided(rid, f, f.node, '_eat_data', 'the bound of the full-window scan (window end against len(chunk)) was not found')
 
 
 def check_eat_data_resets(P, R, rid):
@@ -821,6 +900,7 @@ def check(P, R):
         R.ob('C06.c', im, y.ast, ok, text='yield name, (abs_start_section, self.abspos + end_section)', detail='' if ok else
              'section offsets are not absolute offsets into the buffered body')
     check_eat_data_resets(P, R, 'C06.c')
+    check_window_bound(P, R, 'C06.c')
     # stopped flag set when the stop signal is caught
     hs = [h for h in ast.walk(im.node) if isinstance(h, ast.ExceptHandler) and h.type is not None and 'StopMarkupException' in src(h.type)]
     ok = bool(hs) and any(isinstance(st, ast.Assign) and any(dotted(t) == 'self.stopped' for t in st.targets) and is_const(st.value, True)
